@@ -110,16 +110,42 @@ def strip_generics(s):
     return "".join(out)
 
 
+CORE_MODS = ("iter", "option", "result", "ops", "convert", "num", "slice", "str", "cmp", "clone", "marker", "mem",
+             "cell", "default", "borrow", "hash", "char", "hint", "panicking", "array", "ptr", "any", "primitive")
+ALLOC_MODS = ("vec", "string", "collections", "boxed", "rc", "sync", "alloc")
+
+
+def canon(p):
+    """def paths are printed through whatever re-export is visible in the analysed crate (`std::iter::…` in a
+    std crate, `core::iter::…` in a no_std one); map the std facade back to the defining crate"""
+    if not isinstance(p, str):
+        return p
+    lead = ""
+    q = p
+    if q.startswith("<"):
+        return p.replace("<std::", "<core::").replace(" as std::", " as core::") if "std::" in p else p
+    if q.startswith("std::"):
+        rest = q[5:]
+        mod = rest.split("::", 1)[0]
+        if mod in CORE_MODS:
+            return "core::" + rest
+        if mod in ALLOC_MODS:
+            return "alloc::" + rest
+        if mod == "fmt":
+            return "core::" + rest
+    return p
+
+
 class Callee:
     def __init__(self, fj):
         self.j = fj
         self.name = fj["name"]
-        self.path = fj["path"]
+        self.path = canon(fj["path"])
         self.krate = fj["krate"]
         self.local = fj["local"]
         self.unsafe = fj.get("unsafe", False)
-        self.trait = fj.get("trait") or fj.get("impl_trait")
-        self.adt = fj.get("resolved_adt") or fj.get("impl_adt")
+        self.trait = canon(fj.get("trait") or fj.get("impl_trait"))
+        self.adt = canon(fj.get("resolved_adt") or fj.get("impl_adt"))
         self.self_ty = fj.get("resolved_self_ty") or fj.get("impl_self_ty")
         self.resolved = fj.get("resolved")
         self.resolved_local = fj.get("resolved_local", False)
@@ -628,7 +654,7 @@ class Terms:
         if tj["k"] != "adt":
             return False
         # a collection / crate-local struct that is mutated in place through &mut calls
-        if tj["path"] in self.CONTAINERS or tj.get("krate") == self.b.crate.name:
+        if canon(tj["path"]) in self.CONTAINERS or tj.get("krate") == self.b.crate.name:
             for d in self.b.defs().get(l, []):
                 if d[0] == "mutby":
                     t = self.b.blocks[d[1]]["term"]
